@@ -16,6 +16,7 @@ import (
 	cidlink "github.com/ipld/go-ipld-prime/linking/cid"
 	"github.com/ipld/go-ipld-prime/node/basicnode"
 
+	"verifharness/gen"
 	"verifharness/mon"
 	"verifharness/store"
 )
@@ -111,7 +112,19 @@ func TestC14(t *testing.T) {
 				}
 				dt := pb.Data_Directory
 				add("type-Directory/"+lc, "map", mustMarshal(&pb.Data{Type: &dt}), true, ls, names, "directory")
+				// type numbers beyond 32 bits whose low bits look like a valid type (hand-encoded varint)
+				for _, big := range []uint64{1<<32 + 2, 1 << 33, 5<<40 + 1, 1<<62 + 5, 1<<63 + 2, 1<<32 + 5} {
+					add(fmt.Sprintf("type-out-of-range-%d/%s", big, lc), "error", gen.Encode(rr, gen.Msg{Type: big}, gen.Pres{Kind: "ordered"}), true, ls, names, "unknown type (wide)")
+				}
+				// the same typed nodes with the DataType field serialised last (legal protobuf)
+				add("type-Directory-typelast/"+lc, "map", gen.Encode(rr, gen.Msg{Type: 1, FileSize: gen.U64(0)}, gen.Pres{Kind: "reversed"}), true, ls, names, "directory, type field last")
+				add("type-Symlink-typelast/"+lc, "linkmap", gen.Encode(rr, gen.Msg{Type: 4, HasData: true, Data: []byte("t")}, gen.Pres{Kind: "reversed"}), true, ls, names, "symlink, type field last")
+				add("type-out-of-range-9-typelast/"+lc, "error", gen.Encode(rr, gen.Msg{Type: 9, FileSize: gen.U64(1)}, gen.Pres{Kind: "reversed"}), true, ls, names, "unknown type, type field last")
 			}
+			add("type-File-typelast/nolinks", "bytes", gen.Encode(rr, gen.Msg{Type: 2, HasData: true, Data: []byte("inline"), FileSize: gen.U64(6)}, gen.Pres{Kind: "reversed"}), true, nil, nil, "file, type field last")
+			add("type-Raw-typelast/nolinks", "bytes", gen.Encode(rr, gen.Msg{Type: 0, HasData: true, Data: []byte("inline")}, gen.Pres{Kind: "reversed"}), true, nil, nil, "raw, type field last")
+			add("shard/valid-f8-typelast", "map", gen.Encode(rr, gen.Msg{Type: 5, HashType: gen.U64(0x22), Fanout: gen.U64(8), HasData: true, Data: []byte{}}, gen.Pres{Kind: "reversed"}), true, nil, nil, "shard, type field last")
+			add("shard/fanout-24-typelast", "error", gen.Encode(rr, gen.Msg{Type: 5, HashType: gen.U64(0x22), Fanout: gen.U64(24), HasData: true, Data: []byte{}}, gen.Pres{Kind: "reversed"}), true, nil, nil, "invalid shard, type field last")
 			// files: raw / file types, no links (inline data present, empty, absent) and with links
 			for _, t := range []pb.Data_DataType{pb.Data_File, pb.Data_Raw} {
 				tt := t
